@@ -36,7 +36,7 @@ Inductive site : Type :=
 | SMeasure (op : operand) | SReset (op : operand) | SBarrier (ops : list operand)
 | SBinOp (lq rq : bool)            (* is the left / right operand's type quantum *)
 | SDefCall (expected supplied : N)
-| SAssign (target : sym)
+| SAssign (target : sym) (value_fits : bool)   (* can the value's type be converted to the target's *)
 | SQubitDecl (sc : scope_ty) | SGateDef (sc : scope_ty) | SDefDef (sc : scope_ty)
 | SReturn (sc : scope_ty)
 | SDelay (is_duration : bool).
@@ -76,8 +76,9 @@ Definition site_diags (s : site) : list diag :=
   | SBarrier ops => flat_map operand_diags ops
   | SBinOp lq rq => (if lq then [DIncompatibleTypes] else []) ++ (if rq then [DIncompatibleTypes] else [])
   | SDefCall e n => if e =? n then [] else [DNumDefParams]
-  | SAssign t => (if sym_undef t then [DUndefVar] else
-                  if sym_is_const t then [DMutateConst] else [])
+  | SAssign t fits => (if sym_undef t then [DUndefVar] else
+                       (if fits then [] else [DIncompatibleTypes]) ++
+                       (if sym_is_const t then [DMutateConst] else []))
   | SQubitDecl sc | SGateDef sc | SDefDef sc => if in_global sc then [] else [DNotInGlobalScope]
   | SReturn sc => if in_global sc then [DReturnInGlobalScope] else []
   | SDelay d => if d then [] else [DIncompatibleTypes]
@@ -105,13 +106,14 @@ Definition violates (d : diag) (s : site) : Prop :=
   | DIncompatibleTypes, SBinOp l r => l = true \/ r = true
   | DIncompatibleTypes, SDelay d => d = false
   | DNumDefParams, SDefCall e n => e <> n
-  | DMutateConst, SAssign t => t <> YUndef /\ sym_is_const t = true
+  | DMutateConst, SAssign t _ => t <> YUndef /\ sym_is_const t = true
+  | DIncompatibleTypes, SAssign t fits => t <> YUndef /\ fits = false
   | DNotInGlobalScope, SQubitDecl sc | DNotInGlobalScope, SGateDef sc
   | DNotInGlobalScope, SDefDef sc => sc <> ScGlobal
   | DReturnInGlobalScope, SReturn sc => sc = ScGlobal
   | DUndefVar, SGateCall _ _ ops | DUndefVar, SBarrier ops =>
       exists o, In o ops /\ (o = OIdent YUndef \/ o = OIndexed YUndef)
   | DUndefVar, SMeasure o | DUndefVar, SReset o => o = OIdent YUndef \/ o = OIndexed YUndef
-  | DUndefVar, SAssign t => t = YUndef
+  | DUndefVar, SAssign t _ => t = YUndef
   | _, _ => False
   end.
